@@ -80,6 +80,125 @@ def need_dict(ip, st, t, what):
     return st
 
 
+# --------------------------------------------------------------------------- references at a symbolic key path
+KARR = "(Array Int Key)"
+
+
+def declare_paths(reg):
+    """walka(x, ks, i, n): the item reached from x by the keys ks[i..n) (none if a key is missing or the way passes through
+    a scalar);  wseta(x, ks, i, n, v): x with that item replaced by v (the way there exists)"""
+    reg.need_val()
+    reg.need(KARR)
+    reg.fun_decl("walka",
+                 "(define-fun-rec walka ((x Val) (ks %s) (i Int) (n Int)) Opt "
+                 "(ite (>= i n) (some x) (ite (and (isD x) (vhas x (select ks i))) "
+                 "(walka (vget x (select ks i)) ks (+ i 1) n) none)))" % KARR)
+    reg.fun_decl("wseta",
+                 "(define-fun-rec wseta ((x Val) (ks %s) (i Int) (n Int) (v Val)) Val "
+                 "(ite (>= i n) v (D (store (dm x) (select ks i) "
+                 "(some (wseta (vget x (select ks i)) ks (+ i 1) n v))))))" % KARR)
+
+
+def seg_get(ip, t, seg):
+    declare_paths(ip.reg)
+    return T("(the (walka %s %s %s %s))" % (t.s, seg.arr.s, seg.lo.s, seg.hi.s), "Val")
+
+
+def seg_set(ip, t, seg, new):
+    declare_paths(ip.reg)
+    return T("(wseta %s %s %s %s %s)" % (t.s, seg.arr.s, seg.lo.s, seg.hi.s, new.s), "Val")
+
+
+def same_ref(ip, st, a, b):
+    """Bool term: the references a and b denote the same position of the same object (None: not comparable here).
+    Paths are compared by form: equal paths, or paths that differ in how their last stretch is written."""
+    from .sym import Seg
+    from .smt import CMP, ADD
+    if not (isinstance(a, Ref) and isinstance(b, Ref)) or a.cid != b.cid:
+        return FALSE
+    pa, pb = list(a.path), list(b.path)
+    while pa and pb and pa[0] == pb[0]:
+        pa.pop(0)
+        pb.pop(0)
+    if not pa and not pb:
+        return TRUE
+
+    def sel(arr, i):
+        return T("(select %s %s)" % (arr.s, i.s), "Key")
+    for x, y in ((pa, pb), (pb, pa)):
+        # x is written with single keys, y with one stretch
+        if len(y) == 1 and isinstance(y[0], Seg) and all(not isinstance(e, Seg) for e in x):
+            g = y[0]
+            conds = [EQ(g.hi, ADD(g.lo, I(len(x))))]
+            for j, k in enumerate(x):
+                conds.append(EQ(k, sel(g.arr, ADD(g.lo, I(j)))))
+            return AND(*conds)
+        # x = stretch [lo, hi) followed by single keys, y = stretch [lo, hi') over the same array
+        if len(y) == 1 and isinstance(y[0], Seg) and x and isinstance(x[0], Seg) and x[0].arr.s == y[0].arr.s \
+                and x[0].lo.s == y[0].lo.s and all(not isinstance(e, Seg) for e in x[1:]):
+            g, h = x[0], y[0]
+            conds = [CMP("<=", g.lo, g.hi), EQ(h.hi, ADD(g.hi, I(len(x) - 1)))]
+            for j, k in enumerate(x[1:]):
+                conds.append(EQ(k, sel(g.arr, ADD(g.hi, I(j)))))
+            return AND(*conds)
+    return None
+
+
+def path_ref(ip, st, env, spec4, entry=None):
+    """the reference (root, keys, lo, hi) of a cursor / result_ref declaration, evaluated in state st with names env;
+    `old(name)` as root = the object the parameter `name` referred to at entry"""
+    from .calls import spec_state
+    from .sym import Seg
+    from .speclib import lst_term
+    root_e, keys_e, lo_e, hi_e = spec4
+    ip.spec_mode += 1
+    try:
+        s = spec_state(st, env)
+        if root_e.startswith("old(") and root_e.endswith(")"):
+            root = (entry or ip.entry).env[root_e[4:-1].strip()]
+        else:
+            root = ip.ev1(ip.contracts_parse(root_e), s)
+        if not (isinstance(root, Ref) and isinstance(st.heap.get(root.cid), ValCell)):
+            raise U("cursor / result_ref root %s is not a dictionary object" % root_e)
+        kv = ip.ev1(ip.contracts_parse(keys_e), s)
+        if isinstance(kv, Str) or (isinstance(kv, Opaque) and kv.sort == "Key"):
+            ip.reg.need(KARR)
+            arr = T("((as const %s) %s)" % (KARR, ip.key_term(kv).s), KARR)
+        else:
+            arr = ip.reg.l_arr(lst_term(ip, s, kv, ip.reg.lst("Key")))
+        lo = ip.num(ip.ev1(ip.contracts_parse(lo_e), s))
+        hi = ip.num(ip.ev1(ip.contracts_parse(hi_e), s))
+    finally:
+        ip.spec_mode -= 1
+    return Ref(root.cid, root.path + (Seg(arr, lo, hi),)), root
+
+
+def set_cursors(ip, spec, h):
+    """loop head: the declared cursors replace whatever the havoc left in those names (induction hypothesis)"""
+    from .smt import CMP
+    for name, spec4 in getattr(spec, "cursor", {}).items():
+        ref, root = path_ref(ip, h, ip.spec_env(h), spec4)
+        h.env[name] = ref
+        seg = ref.path[-1]
+        declare_paths(ip.reg)
+        # the reference exists (it was obtained by successful item look-ups): the way to it is there
+        h.assume(CMP("<=", seg.lo, seg.hi))
+        h.assume(NOT(EQ(T("(walka %s %s %s %s)" % (ip.deref(h, root).s, seg.arr.s, seg.lo.s, seg.hi.s), "Opt"), T("none", "Opt"))))
+
+
+def check_cursors(ip, k, spec, st, kind):
+    for name, spec4 in getattr(spec, "cursor", {}).items():
+        ref, root = path_ref(ip, st, ip.spec_env(st), spec4)
+        g = same_ref(ip, st, st.env.get(name), ref)
+        if g is None:
+            raise U("cursor `%s` of loop #%s: cannot compare %r with %r" % (name, k, st.env.get(name), ref))
+        ip.emit("cursor", "loop#%s.%s cursor `%s` is the declared object" % (k, kind, name), st, g)
+        seg = ref.path[-1]
+        declare_paths(ip.reg)
+        ip.emit("cursor", "loop#%s.%s the way to cursor `%s` exists" % (k, kind, name), st,
+                NOT(EQ(T("(walka %s %s %s %s)" % (ip.deref(st, root).s, seg.arr.s, seg.lo.s, seg.hi.s), "Opt"), T("none", "Opt"))))
+
+
 # --------------------------------------------------------------------------- stores
 def shares_nothing(ip, st, v):
     """the value v can be stored into a deep copy without making it share a mutable object: immutable scalars, and
@@ -165,6 +284,10 @@ def val_method(ip, st, recv, name, pos, kws):
     if name in ("keys", "items", "values"):
         need_dict(ip, st, t, name)
         return [(st, Fun("dictview", recv=recv, name=name))]
+    if name == "clear" and isinstance(recv, Ref) and not pos:
+        need_dict(ip, st, t, "clear")
+        ip.store(st, recv, T("(D emptymap)", "Val"))
+        return [(st, NONE)]
     if name == "copy":
         need_dict(ip, st, t, "copy")
         return [(st, ip.new_cell(st, ValCell(t)))]
